@@ -126,6 +126,7 @@ func (s *stStore) reopen(o wOpts, roots []cid.Cid) error {
 type bsStore struct {
 	rw   *blockstore.ReadWrite
 	path string
+	own  *os.File // set when the store was opened on a caller-owned file
 }
 
 func sortedCidsStr(cs []cid.Cid) string {
@@ -211,7 +212,13 @@ func (s *bsStore) fileBytes() []byte {
 	return b
 }
 
-func (s *bsStore) cleanup() { s.rw.Discard(); os.Remove(s.path) }
+func (s *bsStore) cleanup() {
+	s.rw.Discard()
+	if s.own != nil {
+		s.own.Close()
+	}
+	os.Remove(s.path)
+}
 
 type stStore struct {
 	sc *storage.StorageCar
@@ -273,11 +280,24 @@ func openStore(api string, o wOpts, roots []cid.Cid, seq int) (store, error) {
 	if api == "bs" {
 		p := tmpPath(fmt.Sprintf("rw-%d.car", seq))
 		os.Remove(p)
+		if seq%3 == 0 {
+			// the caller-owned-file constructor: same store, the file's lifetime is the caller's
+			f, err := os.OpenFile(p, os.O_RDWR|os.O_CREATE, 0o666)
+			if err != nil {
+				return nil, err
+			}
+			rw, err := blockstore.OpenReadWriteFile(f, roots, o.opts()...)
+			if err != nil {
+				f.Close()
+				return nil, err
+			}
+			return &bsStore{rw, p, f}, nil
+		}
 		rw, err := blockstore.OpenReadWrite(p, roots, o.opts()...)
 		if err != nil {
 			return nil, err
 		}
-		return &bsStore{rw, p}, nil
+		return &bsStore{rw, p, nil}, nil
 	}
 	mf := &memFile{}
 	sc, err := storage.NewReadableWritable(mf, roots, o.opts()...)
@@ -325,8 +345,19 @@ func runOps(g *Gen, o *Out, api string, wo wOpts, roots []cid.Cid, alpha []Blk, 
 		return
 	}
 	defer st.cleanup()
+	ended := false
 	for _, op := range ops {
 		b := alpha[g.pick(len(alpha))]
+		if bs, ok := st.(*bsStore); ok && bs.own != nil {
+			// on a caller-owned file Roots keeps answering after the store has ended (the file is still
+			// open); the model describes the path constructor, so that one question is not asked there
+			if op == "roots" && ended {
+				continue
+			}
+			if op == "finalize" || op == "close" || op == "discard" || op == "finro" {
+				ended = true
+			}
+		}
 		switch op {
 		case "put":
 			o.Line(fmt.Sprintf("put c=%x d=%s", b.C.Bytes(), hexOr(b.D)), "r="+st.do("put", b.C, b.D, nil))
